@@ -36,32 +36,30 @@ def jobWindows (jobs : List Job) : List (Nat × Nat) := jobs.map fun j => (j.sm.
 theorem rangesLen_jobWindows (jobs : List Job) : rangesLen (jobWindows jobs) = jobLens jobs := by
   simp [rangesLen, jobWindows, jobLens, List.map_map, Function.comp_def]
 
-theorem writeFmmuConfig_fresh {r : Regs} {bits fi off ty : Nat} {cfg : SmReg} {p : Regs × Nat}
-    (hd : (r.fmmu fi).enable = false) (h : writeFmmuConfig .checked r bits fi off ty cfg = .ok p) :
-    bits + 7 < 65536 ∧ p = (r.setFmmu fi (freshFmmu off cfg ty), off + (bits + 7) / 8) := by
+theorem writeFmmuConfig_fresh {r : Regs} {fi off ty : Nat} {cfg : SmReg} {p : Regs × Nat}
+    (hd : (r.fmmu fi).enable = false) (h : writeFmmuConfig .checked r fi off ty cfg = .ok p) :
+    p = (r.setFmmu fi (freshFmmu off cfg ty), off + cfg.len) := by
   unfold writeFmmuConfig at h
   simp only [hd, Bool.false_eq_true, if_false] at h
   obtain ⟨f, hf, h⟩ := bind_eq_ok.1 h
   obtain ⟨o, ho, h⟩ := bind_eq_ok.1 h
-  obtain ⟨h1, _, rfl⟩ := incrementByteAligned_ok.1 ho
+  obtain ⟨_, rfl⟩ := increment_ok.1 ho
   simp at hf h
   subst hf
-  exact ⟨h1, h.symm⟩
+  exact h.symm
 
-theorem writeFmmuConfig_enabled {r : Regs} {bits fi off ty : Nat} {cfg : SmReg} {p : Regs × Nat}
-    (he : (r.fmmu fi).enable = true) (h : writeFmmuConfig .checked r bits fi off ty cfg = .ok p) :
-    bits + 7 < 65536 ∧
-      p = (r.setFmmu fi { r.fmmu fi with length := (r.fmmu fi).length + cfg.len }, off + (bits + 7) / 8) := by
+theorem writeFmmuConfig_enabled {r : Regs} {fi off ty : Nat} {cfg : SmReg} {p : Regs × Nat}
+    (he : (r.fmmu fi).enable = true) (h : writeFmmuConfig .checked r fi off ty cfg = .ok p) :
+    p = (r.setFmmu fi { r.fmmu fi with length := (r.fmmu fi).length + cfg.len }, off + cfg.len) := by
   unfold writeFmmuConfig at h
   simp only [he, if_true] at h
   obtain ⟨f, hf, h⟩ := bind_eq_ok.1 h
   obtain ⟨o, ho, h⟩ := bind_eq_ok.1 h
-  obtain ⟨h1, _, rfl⟩ := incrementByteAligned_ok.1 ho
+  obtain ⟨_, rfl⟩ := increment_ok.1 ho
   obtain ⟨l, hl, hf⟩ := bind_eq_ok.1 hf
-  obtain ⟨_, rfl⟩ := add16_ok.1 hl
+  obtain ⟨_, rfl⟩ := extendLen_ok.1 hl
   simp at hf h
   subst hf
-  refine ⟨h1, ?_⟩
   rw [← h]
   simp [he]
 
@@ -138,7 +136,9 @@ theorem eepromLoop_pure {d : Device} {dir : Dir} {pdos : List Pdo} :
       rw [eepromFmmuIndex_eq, writeSmConfig_eq] at hw
       have hd : ((r.setSm i (Job.cfg ⟨i, sm, (bits + 7) / 8⟩)).fmmu i).enable = false := by
         simpa using hfresh (i, sm) (by simp) hty
-      obtain ⟨_, rfl⟩ := writeFmmuConfig_fresh hd hw
+      have hw' := writeFmmuConfig_fresh hd hw
+      simp only [Job.cfg] at hw'
+      subst hw'
       have hfresh' : ∀ x ∈ rest, x.2.usageType = dir.smType →
           (((r.setSm i (Job.cfg ⟨i, sm, (bits + 7) / 8⟩)).setFmmu i
             (freshFmmu off (Job.cfg ⟨i, sm, (bits + 7) / 8⟩) dir.smType)).fmmu x.1).enable = false := by
@@ -208,11 +208,15 @@ theorem coeLoop_pure {d : Device} {dir : Dir} :
               simp only [coePure, hlb0, if_false, Option.getD_some]
               by_cases he : (r.fmmu fi).enable = true
               · have he' : ((r.setSm i (Job.cfg ⟨i, sm, (bits + 7) / 8⟩)).fmmu fi).enable = true := by simpa using he
-                obtain ⟨_, rfl⟩ := writeFmmuConfig_enabled he' hw
+                have hw' := writeFmmuConfig_enabled he' hw
+                simp only [Job.cfg] at hw'
+                subst hw'
                 simpa [he, Job.cfg] using hj4
               · have he0 : (r.fmmu fi).enable = false := by simpa using he
                 have he' : ((r.setSm i (Job.cfg ⟨i, sm, (bits + 7) / 8⟩)).fmmu fi).enable = false := by simpa using he0
-                obtain ⟨_, rfl⟩ := writeFmmuConfig_fresh he' hw
+                have hw' := writeFmmuConfig_fresh he' hw
+                simp only [Job.cfg] at hw'
+                subst hw'
                 simpa [he0, Job.cfg] using hj4
         · simp only [hpos, if_false] at h
           have hb0 : bits = 0 := by omega
